@@ -739,6 +739,27 @@ func possibleStructType(tname syntax.TypeId, lookup *syntax.TypeLookup) bool {
 	return ok
 }
 
+// structMembers returns the members of the given struct type, if known.
+func structMembers(tname syntax.TypeId,
+	lookup *syntax.TypeLookup) map[string]*syntax.StructMember {
+	if lookup != nil {
+		if t, ok := lookup.Get(tname).(*syntax.StructType); ok {
+			return t.Table
+		}
+	}
+	return nil
+}
+
+// memberType returns the declared type of the given struct member, or the
+// default if it is not known.
+func memberType(members map[string]*syntax.StructMember, key string,
+	def syntax.TypeId) syntax.TypeId {
+	if m := members[key]; m != nil {
+		return m.Tname
+	}
+	return def
+}
+
 // Recursively search an expression to convert MapExp to struct types where
 // appropriate.  This should only get applied for expression types which are
 // parsed from json, as opposed to those parsed from mro.
@@ -821,15 +842,17 @@ func convertToExp(parser *syntax.Parser, split bool, val json.Marshaler,
 			Kind:  syntax.KindMap,
 			Value: make(map[string]syntax.Exp, len(val)),
 		}
+		var members map[string]*syntax.StructMember
 		if possibleStructType(tname, lookup) {
 			res.Kind = syntax.KindStruct
+			members = structMembers(tname, lookup)
 		} else if tname.MapDim > 0 {
 			tname.ArrayDim = tname.MapDim - 1
 			tname.MapDim = 0
 		}
 		for k, v := range val {
 			if e, err := convertToExp(parser, false,
-				v, tname, lookup); err != nil {
+				v, memberType(members, k, tname), lookup); err != nil {
 				return &res, err
 			} else {
 				res.Value[k] = e
@@ -841,15 +864,17 @@ func convertToExp(parser *syntax.Parser, split bool, val json.Marshaler,
 			Kind:  syntax.KindMap,
 			Value: make(map[string]syntax.Exp, len(val)),
 		}
+		var members map[string]*syntax.StructMember
 		if possibleStructType(tname, lookup) {
 			res.Kind = syntax.KindStruct
+			members = structMembers(tname, lookup)
 		} else if tname.MapDim > 0 {
 			tname.ArrayDim = tname.MapDim - 1
 			tname.MapDim = 0
 		}
 		for k, v := range val {
 			if e, err := convertToExp(parser, false,
-				v, tname, lookup); err != nil {
+				v, memberType(members, k, tname), lookup); err != nil {
 				return &res, err
 			} else {
 				res.Value[k] = e
